@@ -320,6 +320,7 @@ func scLogin(r *Run) {
 			allKeys = append(allKeys, k)
 		}
 	}
+	gluedProbe := map[string]keys.DHPublicKey{}
 	stranger := newX25519()
 	allKeys = append(allKeys, stranger)
 	// files
@@ -342,6 +343,35 @@ func scLogin(r *Run) {
 			}
 		}
 		sf := &simFile{content: buildKeysFile(r, "file-"+u, valid, others), mtime: time.Now().Truncate(time.Second)}
+		// a long file in which a malformed line (two key texts glued together) straddles a block boundary: its
+		// first half alone would be a well-formed entry
+		if len(others) > 0 && r.Intn("file", 12) == 0 {
+			boundary := 1 << uint([]int{9, 12, 13, 16, 16, 17, 20}[r.Intn("file", 7)])
+			g := others[r.Intn("file", len(others))]
+			glued := keyLine(g) + keyLine(others[r.Intn("file", len(others))])
+			var b []byte
+			for _, k := range valid {
+				b = append(b, keyLine(k)+"\n"...)
+			}
+			padTo := boundary - len(keyLine(g))
+			for len(b)+2 <= padTo {
+				l := padTo - len(b) - 1
+				if l > 70 {
+					l = 70
+				}
+				if padTo-len(b)-1-l == 1 { // never leave a single byte to fill
+					l--
+				}
+				b = append(b, ("#" + strings.Repeat("p", l-1) + "\n")...)
+			}
+			if len(b) == padTo {
+				b = append(b, glued+"\n"...)
+				b = append(b, "# the end\n"...)
+				sf.content = b
+				gluedProbe[u] = g
+				r.CountFault("fs/malformed-line-across-a-block-boundary", 1)
+			}
+		}
 		switch r.Intn("file", 9) {
 		case 0:
 			sf.mode = 1
@@ -482,6 +512,23 @@ func scLogin(r *Run) {
 	}
 	wg.Wait()
 	time.Sleep(time.Second)
+	// keys nobody would generate, and the first halves of glued lines: refused unless they are entries
+	var zeroKey, onesKey keys.DHPublicKey
+	for i := range onesKey {
+		onesKey[i] = 0xff
+	}
+	for _, u := range users {
+		probes := []keys.DHPublicKey{zeroKey, onesKey}
+		if g, ok := gluedProbe[u]; ok {
+			probes = append(probes, g)
+		}
+		for _, k := range probes {
+			r.Obligation(1)
+			if err := hs.AuthorizeKey(u, k); err == nil && !allowedByFile(u, k) {
+				r.Violate("C05/authorizekey-accepts-unlisted-key", "AuthorizeKey(%q) returned nil for the key %x…, which is not a well-formed entry of the stored file (%s)", u, k[:6], describeFile(sfs.files[keysPath(u)]))
+			}
+		}
+	}
 	// the file is edited while the server runs: a listed key is replaced by another one (an entry of the same
 	// length, so the size does not change) and the modification time is preserved (cp -p, rsync -t), lands in
 	// the same second, or moves on.  From then on the removed key is not "in that user's file" any more.
